@@ -50,6 +50,7 @@ def handle (j : Json) : Json :=
   | "analyse" =>
     let p := parseProg j
     let mp := JediModel.Gen.C18.mapping
+    let jn := JediModel.Gen.C18.moduleJoin
     let poss := (arr j "positions").map parsePos
     let defs := (List.range p.leaves.length).filter fun i =>
       match p.leaves[i]? with
@@ -72,8 +73,8 @@ def handle (j : Json) : Json :=
         | some l => jarr ((defChain p p.fuel (chainStart p l) ++ [0]).map jnat)
         | none => .null)),
       ("lambdas", jarr (((List.range p.scopes.length).filter fun s => !notLambda p s).map jnat)),
-      ("full", jarr (defs.map fun i => jnames (fullNameOfLeaf mp p i))),
-      ("scopefull", jarr ((List.range p.scopes.length).map fun s => jnames (fullNameOfScope mp p s))),
+      ("full", jarr (defs.map fun i => jnames (fullNameOfLeaf mp jn p i))),
+      ("scopefull", jarr ((List.range p.scopes.length).map fun s => jnames (fullNameOfScope mp jn p s))),
       ("qualname", jarr ((List.range p.scopes.length).map fun s => jstr (".".intercalate (qualnameOf p s)))),
       ("allclass", jarr ((List.range p.scopes.length).map fun s => jbool (allClassAncestors p p.fuel s)))]
   | op => jobj [("error", jstr ("unknown op " ++ op))]
